@@ -176,6 +176,19 @@ def check(ctx):
            clause="all other top-level members in metadata")
     meta = [n for n in body_nodes(r.node) if isinstance(n, ast.Assign) and isinstance(n.targets[0], ast.Attribute) and n.targets[0].attr == "metadata"]
     ok = bool(meta) and norm(meta[0].value) == RAW
+    if meta:
+        # every frame the reader returns has received its metadata: no return avoids the assignment
+        from ..cfg import cfg_of as _cfg18
+        cfg_r = _cfg18(r)
+        mnodes = {id(cfg_r.node_of(m_, r.module.parent)) for m_ in meta}
+        path = cfg_r.path_avoiding(lambda nd: id(nd) in mnodes)
+        okp = path is None
+        tests_ = [norm(p_.ast) for p_ in (path or []) if p_.kind == "test" and p_.ast is not None]
+        ctx.ob("SIB-16", r, "every return of read() follows `<frame>.metadata = ...`", meta[0], okp,
+               "no exit avoids the metadata assignment" if okp else
+               f"a path through read() returns a frame without storing the other top-level members as metadata (under {tests_[-2:]}): for "
+               f"such a file name / crs / bbox are lost on reading and therefore in the re-written file",
+               clause="all other top-level members in metadata ... equal metadata")
     ctx.ob("SIB-16", r, norm(meta[0]) if meta else "data.metadata = raw", meta[0] if meta else r.node, ok,
            "metadata is the raw object minus features" if ok else "metadata is not taken from the raw object", nontrivial=False)
     if meta and dels:
